@@ -5,6 +5,7 @@ import (
 	"fmt"
 	"strconv"
 	"strings"
+	"time"
 
 	"github.com/quay/claircore"
 	"github.com/quay/claircore/oracle"
@@ -49,6 +50,8 @@ type ovDef struct {
 	Platforms                        [][]string
 	CPEs                             []string
 	Crit                             *ovCrit
+	Issued                           time.Time // zero: no <issued> element (or an "unknown" one)
+	IssuedStyle                      int       // how the date is written, see renderIssued
 }
 type ovDoc struct {
 	Tests   []ovTest
@@ -309,6 +312,10 @@ func (g *gen) defCommon(d *ovDef, sevs []string) {
 	d.Title = g.r.Pick("RHSA-2020:"+strconv.Itoa(1000+g.r.Intn(50)), "ELSA-2021-"+strconv.Itoa(1000+g.r.Intn(50)), g.cve(), "CVE-2021-3156 on Ubuntu 20.04 LTS (focal) - high.") + g.r.Pick("", ": "+g.text(3))
 	d.Desc = g.text(6)
 	d.Severity = g.r.Pick(sevs...)
+	d.Issued, d.IssuedStyle = g.date(), g.r.Intn(4)
+	if d.IssuedStyle < 2 {
+		d.Issued = d.Issued.Truncate(24 * time.Hour) // date-only notations
+	}
 	d.RefURLs, d.AdvRefs, d.Bugs, d.CveHrefs = g.links(2), nil, g.links(1), g.links(2)
 	if len(d.RefURLs) > 0 && len(d.CveHrefs) > 0 && g.r.Chance(1, 3) {
 		d.CveHrefs[0] = d.RefURLs[0] // duplicates across the kinds are dropped
@@ -366,7 +373,7 @@ func (l *line) ovalDoc(d *ovDoc, cpeOK func(string) bool) *line {
 	}
 	l.n(len(d.Defs))
 	for _, df := range d.Defs {
-		l.str(df.ID).str(df.Title).str(df.Desc).str(df.Severity).strs(df.RefURLs).strs(df.AdvRefs).strs(df.Bugs).strs(df.CveHrefs)
+		l.str(df.ID).str(df.Title).str(df.Desc).str(df.Severity).str(issuedTok(df.Issued)).strs(df.RefURLs).strs(df.AdvRefs).strs(df.Bugs).strs(df.CveHrefs)
 		l.n(len(df.Platforms))
 		for _, ps := range df.Platforms {
 			l.strs(ps)
@@ -418,7 +425,7 @@ func renderOval(d *ovDoc, g *gen) []byte {
 		for _, u := range df.RefURLs {
 			fmt.Fprintf(&b, `<reference source="X" ref_id="x" ref_url="%s"/>`, esc(u))
 		}
-		fmt.Fprintf(&b, `<description>%s</description><advisory from="secalert@example.com"><severity>%s</severity><rights>Copyright</rights><issued date="2020-03-04"/><updated date="2020-03-05"/>`, esc(df.Desc), esc(df.Severity))
+		fmt.Fprintf(&b, `<description>%s</description><advisory from="secalert@example.com"><severity>%s</severity><rights>Copyright</rights>%s<updated date="2020-03-05"/>`, esc(df.Desc), esc(df.Severity), renderIssued(df))
 		for _, u := range df.CveHrefs {
 			fmt.Fprintf(&b, `<cve cvss3="7.5/CVSS:3.1/AV:N/AC:L/PR:N/UI:N/S:U/C:N/I:N/A:H" href="%s" impact="important" public="20200101">CVE-2020-0001</cve>`, esc(u))
 		}
@@ -502,10 +509,32 @@ func renderOval(d *ovDoc, g *gen) []byte {
 	return []byte(b.String())
 }
 
+// renderIssued writes the advisory's issue date in one of the notations the
+// vendors use (goval-parser's Date accepts them all).
+func renderIssued(df ovDef) string {
+	if df.Issued.IsZero() {
+		return []string{"", `<issued date=""/>`, `<issued>unknown</issued>`, ""}[df.IssuedStyle]
+	}
+	switch df.IssuedStyle {
+	case 0:
+		return `<issued date="` + df.Issued.Format("2006-01-02") + `"/>`
+	case 1:
+		return `<issued>` + df.Issued.Format("2006-01-02") + `</issued>`
+	case 2:
+		return `<issued>` + df.Issued.Format("2006-01-02 15:04:05") + ` UTC</issued>`
+	}
+	return `<issued>` + df.Issued.Format(time.RFC3339) + `</issued>`
+}
+
 // ---- flavours ----
 
-var oraclePlatforms = map[string]string{"Oracle Linux 5": "ol|5|Oracle Linux 5", "Oracle Linux 6": "ol|6|Oracle Linux 6", "Oracle Linux 7": "ol|7|Oracle Linux 7",
-	"Oracle Linux 8": "ol|8|Oracle Linux 8", "Oracle Linux 9": "ol|9|Oracle Linux 9"}
+var oraclePlatforms = func() map[string]string {
+	m := map[string]string{}
+	for _, v := range []string{"5", "6", "7", "8", "9"} {
+		m["Oracle Linux "+v] = mkDistKey("ol", v, "Oracle Linux "+v, "Oracle Linux Server", v, "Oracle Linux Server "+v, "")
+	}
+	return m
+}()
 
 var rhelDefKinds = []string{"rhsa", "rhsa", "rhsa", "rhsa", "rhsa", "rhsa", "rhba", "rhea", "cve", "cve", "cve", "unaffected", "none", "RHSA", "x1"}
 
@@ -571,7 +600,10 @@ func runOval(r *hx.Run, g *gen, cfg hx.Config) {
 			parse = func(ctx context.Context, feed []byte) ([]*claircore.Vulnerability, error) {
 				return u.Parse(ctx, rc(feed))
 			}
-			dist = map[string]string{"photon1": "photon|1.0|", "photon2": "photon|2.0|", "photon3": "photon|3.0|", "photon4": "||"}[rel]
+			dist = mkDistKey("", "", "", "", "", "", "") // a release the package does not know: the empty distribution
+			if v := map[string]string{"photon1": "1.0", "photon2": "2.0", "photon3": "3.0"}[rel]; v != "" {
+				dist = mkDistKey("photon", v, "", "VMware Photon OS", v, "VMware Photon OS/Linux", "")
+			}
 			l.str(u.Name()).str(dist)
 			sev, sevs = photon.NormalizeSeverity, []string{"Low", "Moderate", "Important", "Critical", "critical", "", "None"}
 		case "rhel":
@@ -586,7 +618,7 @@ func runOval(r *hx.Run, g *gen, cfg hx.Config) {
 			parse = func(ctx context.Context, feed []byte) ([]*claircore.Vulnerability, error) {
 				return u.Parse(ctx, rc(feed))
 			}
-			dist = "rhel|" + strconv.Itoa(rel) + "|"
+			dist = mkDistKey("rhel", strconv.Itoa(rel), "", "Red Hat Enterprise Linux Server", strconv.Itoa(rel), "Red Hat Enterprise Linux Server "+strconv.Itoa(rel), "cpe:/o:redhat:enterprise_linux:"+strconv.Itoa(rel))
 			ign := 0
 			if ignoreUnpatched {
 				ign = 1
@@ -601,7 +633,7 @@ func runOval(r *hx.Run, g *gen, cfg hx.Config) {
 			parse = func(ctx context.Context, feed []byte) ([]*claircore.Vulnerability, error) {
 				return u.Parse(ctx, rc(feed))
 			}
-			dist = "ubuntu|" + rel[1] + "|" + rel[0]
+			dist = mkDistKey("ubuntu", rel[1], rel[0], "Ubuntu", rel[1]+" ("+strings.ToUpper(rel[0][:1])+rel[0][1:]+")", "Ubuntu "+rel[1], "")
 			if distKey(d) != dist {
 				r.Fail("", fmt.Sprintf("ubuntu release %s %s has distribution %q", rel[0], rel[1], distKey(d)))
 			}
@@ -618,6 +650,18 @@ func runOval(r *hx.Run, g *gen, cfg hx.Config) {
 			d := ovDef{ID: b.id("def"), Class: g.r.Pick("patch", "vulnerability")}
 			g.defCommon(&d, sevs)
 			var protoDists, protoRepos []string // one entry per prototype vulnerability
+			// advisory fields every vulnerability of the definition must carry (computed after d is complete)
+			adv := func() string {
+				iss := issuedTok(d.Issued)
+				if fl == "suse" {
+					iss = "" // the SUSE parser does not copy the issue date
+				}
+				sevstr := d.Severity
+				if fl == "ubuntu" {
+					sevstr = "" // the Ubuntu parser keeps only the normalized severity
+				}
+				return fmt.Sprintf(" issued=%s links=%q desc=%q sevstr=%q", iss, statedLinks(d), d.Desc, sevstr)
+			}
 			switch fl {
 			case "oracle":
 				for a, na := 0, 1+g.r.Intn(2); a < na; a++ {
@@ -736,7 +780,7 @@ func runOval(r *hx.Run, g *gen, cfg hx.Config) {
 							if arch != nil {
 								ex = fmt.Sprintf("module= arch=%s archop=%d repo=", arch.Body, mapArchOpGo(arch.OpNum))
 							}
-							w := want{ID: d.Title, Pkg: nm, Fixed: fixed, Dist: protoDists[pi], Extra: ex, Sev: sev(d.Severity)}
+							w := want{ID: d.Title, Pkg: nm, Fixed: fixed, Dist: protoDists[pi], Extra: ex + adv(), Sev: sev(d.Severity)}
 							wants, flat = append(wants, w), append(flat, w)
 						}
 					}
@@ -776,9 +820,9 @@ func runOval(r *hx.Run, g *gen, cfg hx.Config) {
 							return fmt.Sprintf("module=%s arch= archop=0", m)
 						}
 						for pi := range protoDists {
-							wants = append(wants, want{ID: d.Title, Pkg: p.Pkg, Fixed: fixed, Dist: protoDists[pi], Extra: ex(gr.Module) + " repo=" + protoRepos[pi], Sev: sev(d.Severity)})
+							wants = append(wants, want{ID: d.Title, Pkg: p.Pkg, Fixed: fixed, Dist: protoDists[pi], Extra: ex(gr.Module) + " repo=" + protoRepos[pi] + adv(), Sev: sev(d.Severity)})
 							for _, m := range allMods {
-								flat = append(flat, want{ID: d.Title, Pkg: p.Pkg, Fixed: fixed, Dist: protoDists[pi], Extra: ex(m) + " repo=" + protoRepos[pi], Sev: sev(d.Severity)})
+								flat = append(flat, want{ID: d.Title, Pkg: p.Pkg, Fixed: fixed, Dist: protoDists[pi], Extra: ex(m) + " repo=" + protoRepos[pi] + adv(), Sev: sev(d.Severity)})
 							}
 						}
 					}
@@ -807,7 +851,8 @@ func runOval(r *hx.Run, g *gen, cfg hx.Config) {
 			if v.Package == nil {
 				return "nopkg"
 			}
-			return fmt.Sprintf("module=%s arch=%s archop=%d repo=%s", v.Package.Module, v.Package.Arch, int(v.ArchOperation), repoKeyNoCPE(v.Repo))
+			return fmt.Sprintf("module=%s arch=%s archop=%d repo=%s issued=%s links=%q desc=%q sevstr=%q", v.Package.Module, v.Package.Arch, int(v.ArchOperation), repoKeyNoCPE(v.Repo),
+				issuedTok(v.Issued), v.Links, v.Description, v.Severity)
 		}
 		if d := checkExact(wants, vs, extra); d != "" {
 			// The listed finding, and only it: the result is exactly "every package with every module comment of its definition".
@@ -829,6 +874,22 @@ func runOval(r *hx.Run, g *gen, cfg hx.Config) {
 			}
 		}
 	}
+}
+
+// statedLinks: every distinct non-empty link of the definition, in document
+// order of the four kinds (reference, ref, bug, cve), joined by spaces.
+func statedLinks(d ovDef) string {
+	seen := map[string]bool{}
+	var out []string
+	for _, l := range [][]string{d.RefURLs, d.AdvRefs, d.Bugs, d.CveHrefs} {
+		for _, u := range l {
+			if u != "" && !seen[u] {
+				seen[u] = true
+				out = append(out, u)
+			}
+		}
+	}
+	return strings.Join(out, " ")
 }
 
 func repoKeyNoCPE(r *claircore.Repository) string {
@@ -866,7 +927,7 @@ func ovalWitnesses(r *hx.Run) {
 	mk := func() (*ovBuilder, *line, func(ctx context.Context, feed []byte) ([]*claircore.Vulnerability, error)) {
 		b := &ovBuilder{g: g, objs: map[string]string{}, ns: "com.redhat.rhsa"}
 		u, _ := rhel.NewUpdater("rhel-8-updater", 8, "https://example.com/oval.xml", false)
-		l := (&line{}).tok("oval").tok("rhel").str(u.Name()).str("rhel|8|").n(0)
+		l := (&line{}).tok("oval").tok("rhel").str(u.Name()).str(mkDistKey("rhel", "8", "", "Red Hat Enterprise Linux Server", "8", "Red Hat Enterprise Linux Server 8", "cpe:/o:redhat:enterprise_linux:8")).n(0)
 		return b, l, func(ctx context.Context, feed []byte) ([]*claircore.Vulnerability, error) {
 			return u.Parse(ctx, rc(feed))
 		}
